@@ -36,5 +36,11 @@ CLAIMED = {
         design_ref="§4 C10, §3.3",
         note="at most two markup constructs per source; hyphens inside raw's own delimiters are specified not to touch the body; quick samples 36k of the enumerated sources",
     ),
+    "C22": dict(
+        technique="TLA+ model of name resolution over a sandbox tree with symlinks (PathDefs/PathResolve.tla) and of file-system mutation histories under a living loader (PathHistory.tla), model-checked with TLC; every request/history replayed on a real directory tree",
+        text="TLC checks Contained/RealInsideWhenRejectingSymlinks/OnlyNotFound/UpwardsNeverResolves on every name of <=2 (thorough 3) components over 19 component kinds x 4 prefix kinds x ext x reject_symlinks, and NeverOutside/AnswerIsCurrent on all histories of <=4 requests/mutations (file->outlink, dir->outlink, touch, delete); replayed against FileSystemLoader (1 and 2 search paths), CachingFileSystemLoader and PackageLoader, sync and async; the answer must be the specification's (TemplateNotFoundError or the unique content of the inside file)",
+        design_ref="§4 C22, §3.11",
+        note="the real file system is driven, not modelled beyond component walking and link following; PackageLoader only without reject_symlinks (it has no such option)",
+    ),
 }
 NOT_APPLICABLE = {}
